@@ -324,8 +324,9 @@ def fill_command(chk, tier, rng):
                 out.seek(0)
                 out.truncate()
                 with patched((F, {"numpy": proxy, "fill_cij": fill_recorder})), contextlib.redirect_stdout(out):
+                    cap.clear()
                     cf.main.callback(input02=fn, system=system, **opts)
-                return out.getvalue()
+                return out.getvalue(), cap.get("df"), dict(cap.get("kw") or {}), dict(seen)
             paths = ex.run(run)
         except (SymError, X.PathBudgetExceeded) as e:
             chk.inconclusive(name, str(e))
@@ -333,34 +334,46 @@ def fill_command(chk, tier, rng):
         finally:
             pandas.DataFrame.to_string, pandas.read_table = orig_ts, orig_rt
             os.unlink(fn)
-        p = paths[0]
-        if p.exception is not None:
-            fails.append("raises %s: %s" % (type(p.exception).__name__, p.exception))
-        else:
+        direct_cache = {}
+        for p in paths:
+            if fails:
+                break
+            if p.exception is not None:
+                fails.append("raises %s: %s" % (type(p.exception).__name__, p.exception))
+                continue
+            p_text, p_df, p_kw, p_seen = p.result
             want_text = "\n".join(head) + "\n" + "<<TABLE>>\n" + "\n".join(tail) + "\n"
-            if p.result != want_text:
+            if p_text != want_text:
                 fails.append("header lines / lattice block are not re-emitted unchanged around the table")
-            if seen.get("rows") != nv:
-                fails.append("%s table rows handed to the filling instead of %d" % (seen.get("rows"), nv))
-            if seen.get("kwargs") != dict(system=system, **opts):
-                fails.append("options reach fill_cij as %s" % seen.get("kwargs"))
-            if cap.get("kw", {}).get("index", True) is not False:
+            if p_seen.get("rows") != nv:
+                fails.append("%s table rows handed to the filling instead of %d" % (p_seen.get("rows"), nv))
+            if p_seen.get("kwargs") != dict(system=system, **opts):
+                fails.append("options reach fill_cij as %s" % p_seen.get("kwargs"))
+            if (p_kw or {}).get("index", True) is not False:
                 fails.append("the row index is printed as an extra column")
-            # the emitted frame is fill_cij of the parsed table
+            # the emitted frame is fill_cij of the parsed table, row by row in the order of the input (the lattice block that follows is
+            # re-emitted in the input's order) -- on every path, whatever the order of the symbolic volumes
             try:
-                ex2 = X.Explorer(max_paths=32, name="C17:fill:direct")
-                ex2.prefer = FC.no_drop_cut
-                parsed = pandas.DataFrame({c: [tk.float(t_) for t_ in ([vol[i] for i in range(nv)] if c == "V" else [tab[i][cols.index(c)] for i in range(nv)])]
-                                           for c in ["V"] + cols}, dtype=object)
-                direct, _, _ = FC.run_fill(F, parsed, system, explorer=ex2, **opts)
-                d = direct[0].result
-                got = cap.get("df")
+                if "d" not in direct_cache:
+                    ex2 = X.Explorer(max_paths=32, name="C17:fill:direct")
+                    ex2.prefer = FC.no_drop_cut
+                    parsed = pandas.DataFrame({c: [tk.float(t_) for t_ in ([vol[i] for i in range(nv)] if c == "V" else [tab[i][cols.index(c)] for i in range(nv)])]
+                                               for c in ["V"] + cols}, dtype=object)
+                    direct, _, _ = FC.run_fill(F, parsed, system, explorer=ex2, **opts)
+                    direct_cache["d"] = direct[0].result
+                d = direct_cache["d"]
+                got = p_df
                 if got is None or list(got.columns) != list(d.columns):
                     fails.append("emitted columns %s instead of %s" % (list(got.columns) if got is not None else None, list(d.columns)))
+                elif len(got) != len(d):
+                    fails.append("%d rows emitted instead of %d" % (len(got), len(d)))
                 else:
-                    for c in d.columns:
-                        if not all(same(a, b, name) for a, b in zip(got[c].tolist(), d[c].tolist())):
-                            fails.append("emitted column %s is not the symmetry-filled column" % c)
+                    with X.path_assumptions(p):
+                        for c in d.columns:
+                            if not all(same(a, b, name) for a, b in zip(got[c].tolist(), d[c].tolist())):
+                                fails.append("emitted column %s is not the symmetry-filled column, row by row in the order of the input "
+                                             "(path: %s)" % (c, "; ".join(X.cond_str(c_) for c_ in p.path_condition())[:120]))
+                                break
             except Exception as e:
                 fails.append("direct fill for comparison failed: %s: %s" % (type(e).__name__, e))
         chk.obligation(name + ": header and lattice block preserved, N+1 lines consumed, options forwarded, emitted table == fill_cij(parsed table)",
@@ -378,7 +391,7 @@ def canon_col(c):
     return "c" + d
 
 
-def replay_fill_command(chk, system, cols, opts, what):
+def _replay_fill_command_once(chk, system, cols, opts, what, volumes, latt):
     from click.testing import CliRunner
     import cij.cli.fill as cf
     import cij.util.fill as F
@@ -388,8 +401,8 @@ def replay_fill_command(chk, system, cols, opts, what):
     if opts.get("drop_atol", 1e-8) != 1e-8:
         vals["c12"] = [300.0 - 1e-7, 320.0 - 1e-7]       # (c11 - c12)/2 lies between the default and the requested drop tolerance
     spelled = any(canon_col(c) != c.lower() for c in cols)
-    lines = ["comment", "400.000 2 123.456", "V " + " ".join(cols)] + ["%.3f " % v + " ".join("%.9f" % vals[canon_col(c)][i] for c in cols) for i, v in enumerate((400.0, 380.0))]
-    tail = ["lattice parameters", "5.1 5.2 5.3", "5.0 5.1 5.2"]
+    lines = ["comment", "%.3f 2 123.456" % volumes[0], "V " + " ".join(cols)] + ["%.3f " % v + " ".join("%.9f" % vals[canon_col(c)][i] for c in cols) for i, v in enumerate(volumes)]
+    tail = ["lattice parameters"] + [" ".join(repr(x) for x in row) for row in latt]
     fn = os.path.join(tempfile.gettempdir(), "c17_fillr_%d.dat" % os.getpid())
     with open(fn, "w") as fp:
         fp.write("\n".join(lines + tail) + "\n")
@@ -402,42 +415,55 @@ def replay_fill_command(chk, system, cols, opts, what):
                               "static-table reader accepts)" % (" ".join(args[1:3]), r.exception, cols), dict(lines=lines))
             else:
                 chk.violation("fill-command:raises", "cij fill %s fails: %r" % (" ".join(args[1:]), r.exception), dict(lines=lines))
-            return
+            return True
         outl = r.output.splitlines()
         if outl[:2] != lines[:2] or outl[-len(tail):] != tail:
             chk.violation("fill-command:frame", "cij fill does not re-emit the header lines / lattice block unchanged", dict(output=outl[:3] + outl[-4:]))
-            return
+            return True
         with open(fn, "w") as fp:
             fp.write(r.output)
         try:
             back = ed.read_elast_data(fn)
         except Exception as e:
             chk.violation("fill-command:not-a-table", "the output of cij fill is not a readable static table: %s: %s" % (type(e).__name__, e), dict(output=outl[:5]))
-            return
-        if [tuple(x) for x in back.lattice_parmeters] != [(5.1, 5.2, 5.3), (5.0, 5.1, 5.2)] or back.nv != 2 or abs(back.cellmass - 123.456) > 1e-9:
+            return True
+        if [tuple(x) for x in back.lattice_parmeters] != [tuple(r_) for r_ in latt] or back.nv != 2 or abs(back.cellmass - 123.456) > 1e-9:
             chk.violation("fill-command:frame-parse", "the output of cij fill parses with lattice block %s, count %s, cell mass %s instead of the input's"
                           % (back.lattice_parmeters, back.nv, back.cellmass), dict(output=outl[:3] + outl[-4:]))
-            return
+            return True
         import warnings
         with warnings.catch_warnings():
             warnings.simplefilter("ignore")
-            want = F.fill_cij(pandas.DataFrame(dict([("V", [400.0, 380.0])] + [(canon_col(c), vals[canon_col(c)]) for c in cols])), system=system, **opts)
+            want = F.fill_cij(pandas.DataFrame(dict([("V", list(volumes))] + [(canon_col(c), vals[canon_col(c)]) for c in cols])), system=system, **opts)
         for i in range(2):
+            if abs(back.volumes[i].volume - volumes[i]) > 1e-6 * volumes[i]:
+                chk.violation("fill-command:row-order", "cij fill -s %s: row %d of the output has volume %s, the input's row %d has %s -- the rows "
+                              "no longer go with the lattice-parameter lines that follow the table in the input's order" % (
+                                  system, i, back.volumes[i].volume, i, volumes[i]), dict(lines=lines))
+                return True
             got = {("c%d%d" % k.v): v for k, v in back.volumes[i].static_elastic_modulus.items()}
             if sorted(got) != sorted(c.lower() for c in want.columns if c != "V"):
                 chk.violation("fill-command:columns", "cij fill %s emits components %s, fill_cij with these options gives %s" % (
                     " ".join(args[1:]), sorted(got), sorted(c.lower() for c in want.columns if c != "V")), dict(lines=lines))
-                return
+                return True
             for c in want.columns:
                 if c == "V":
                     continue
                 if c.lower() not in got or abs(got[c.lower()] - float(want[c].iloc[i])) > 1e-4 * (1 + abs(float(want[c].iloc[i]))):
                     chk.violation("fill-command:content", "cij fill -s %s: component %s of row %d is %s in the output, fill_cij gives %s" % (
                         system, c, i, got.get(c.lower()), float(want[c].iloc[i])), dict(lines=lines))
-                    return
+                    return True
     finally:
         if os.path.exists(fn):
             os.unlink(fn)
+    return False
+
+
+def replay_fill_command(chk, system, cols, opts, what):
+    """Concrete: the table with decreasing volumes (as the shipped files list them), then with increasing volumes."""
+    for volumes, latt in (((400.0, 380.0), ((5.1, 5.2, 5.3), (5.0, 5.1, 5.2))), ((380.0, 400.0), ((5.0, 5.1, 5.2), (5.1, 5.2, 5.3)))):
+        if _replay_fill_command_once(chk, system, cols, opts, what, volumes, latt):
+            return
     chk.harness_error("C17 fill command: '%s' did not reproduce" % what)
 
 
